@@ -166,3 +166,100 @@ Arguments h_thetas {P S}.
 Arguments f_n {P S}.
 Arguments f_shared {P S}.
 Arguments f_groups {P S}.
+
+(* ---- vocabulary of the source translation ------------------------------------------------
+   (harness/src_functions.py C10_*, Generated/SrcThetas.v, Proofs/C10Source.v)
+
+   A holder OBJECT as the translated methods of ThetaHolder see it: (class id, attribute values).
+   Class id 0 is ThetaHolder itself, any other id stands for a subclass (there is none in the
+   tree); `type(a) != type(b)` compares class ids.  The two attributes are the fields of the
+   model's holder: self._n_thetas = h_declared, self.thetas = h_thetas.  An attribute store
+   rebuilds the object with one field replaced.  py_blank c is what object.__new__ hands to
+   __init__: an instance of class c whose attributes do not exist yet; the placeholder values are
+   both overwritten by __init__ (Proofs/C10Source.v src_init_is_model: the result does not depend
+   on them).  as_obj is the representation map of the linking theorems: a model holder seen as an
+   instance of ThetaHolder itself. *)
+Section PyObjects.
+Variables P S : Type.
+Definition pyobj := (Z * holder P S)%type.
+Definition py_class (o : pyobj) : Z := fst o.
+Definition attr_thetas (o : pyobj) : list (theta P S) := h_thetas (snd o).
+Definition attr_n_thetas (o : pyobj) : Z := h_declared (snd o).
+Definition set_attr_thetas (o : pyobj) (l : list (theta P S)) : pyobj :=
+  (fst o, {| h_declared := h_declared (snd o); h_thetas := l |}).
+Definition set_attr_n_thetas (o : pyobj) (n : Z) : pyobj :=
+  (fst o, {| h_declared := n; h_thetas := h_thetas (snd o) |}).
+Definition py_blank (c : Z) : pyobj := (c, empty_holder P S 0).
+Definition as_obj (h : holder P S) : pyobj := (0, h).
+End PyObjects.
+
+Arguments py_class {P S}.
+Arguments attr_thetas {P S}.
+Arguments attr_n_thetas {P S}.
+Arguments set_attr_thetas {P S}.
+Arguments set_attr_n_thetas {P S}.
+Arguments py_blank {P S}.
+Arguments as_obj {P S}.
+
+(* vocabulary of the translation of ThetaHolder.load_h5 / save_h5: the HDF5 file is the model's `file`
+   (n_thetas attribute, content of the shared_params group, the members of the private_params group
+   in h5py's iteration order, each with the content P of the group = the dict that reading its
+   attributes and datasets gives).  Not modelled: which sample class the file names. *)
+Definition sample_class := unit.
+Definition h5name := Decimal.uint.
+Section PyH5.
+Variable P : Type.
+Definition h5groups := list (h5name * P).
+(* g.keys(): the names of the members, in iteration order *)
+Definition group_names (gs : h5groups) : list h5name := map fst gs.
+(* sorted(names, key=int): Python's sort is stable *)
+Definition sorted_by_int (ks : list h5name) : list h5name := sort_by index_of_key Nat.leb ks.
+(* g[name]: the member of that name; KeyError (Err 97) if there is none *)
+Fixpoint group_member (gs : h5groups) (k : h5name) : result P :=
+  match gs with
+  | [] => Err 97
+  | (k', p) :: r => if Decimal.uint_beq k' k then Ok p else group_member r k
+  end.
+End PyH5.
+
+Arguments group_names {P}.
+Arguments group_member {P}.
+
+(* save_h5 writes a file step by step; h5w is what has been created so far (members of the
+   private_params group in creation order).  h5_close is the representation map of the linking
+   theorem: the file as load_h5 will see it - all three parts must have been written, and the
+   members iterate in h5py's name order (lexsort).  h5handle is the group object that
+   f.create_group("private_params") returns: groups created through it are members of that group
+   of f (the handle itself carries no data in the model).  Not modelled: h5py refuses to create a
+   second member of the same name (the names str(i) of distinct i are distinct). *)
+Definition h5handle := unit.
+Section PyH5Write.
+Variables P S : Type.
+Record h5w := { w_n : option Z; w_shared : option S; w_groups : option (list (h5name * P)) }.
+Definition h5_new : h5w := {| w_n := None; w_shared := None; w_groups := None |}.
+(* f.attrs.create("n_thetas", n) *)
+Definition h5_set_n (w : h5w) (n : Z) : h5w :=
+  {| w_n := Some n; w_shared := w_shared w; w_groups := w_groups w |}.
+(* the shared_params group created and filled from the dict s *)
+Definition h5_write_shared (w : h5w) (s : S) : h5w :=
+  {| w_n := w_n w; w_shared := Some s; w_groups := w_groups w |}.
+(* the (empty) private_params group created *)
+Definition h5_create_private (w : h5w) : h5w :=
+  {| w_n := w_n w; w_shared := w_shared w; w_groups := Some [] |}.
+(* a member group `name` created under private_params and filled from the dict p *)
+Definition h5_add_group (w : h5w) (name : h5name) (p : P) : h5w :=
+  {| w_n := w_n w; w_shared := w_shared w;
+     w_groups := match w_groups w with Some g => Some (g ++ [(name, p)]) | None => None end |}.
+Definition h5_close (w : h5w) : result (file P S) :=
+  match w_n w, w_shared w, w_groups w with
+  | Some n, Some s, Some g => Ok {| f_n := n; f_shared := s; f_groups := lexsort P g |}
+  | _, _, _ => Err 96
+  end.
+End PyH5Write.
+
+Arguments h5_new {P S}.
+Arguments h5_set_n {P S}.
+Arguments h5_write_shared {P S}.
+Arguments h5_create_private {P S}.
+Arguments h5_add_group {P S}.
+Arguments h5_close {P S}.
